@@ -1,3 +1,354 @@
-(* C18_Proofs.v — lemmas for property C18 *)
+(* C18_Proofs.v — lemmas and proofs for property C18 (scriptlets and permissions). *)
 From Adb Require Import Base BaseProofs Generated C18_Model.
+From Coq Require Import ZifyBool ZifyNat ZifyN Permutation.
 Open Scope N_scope.
+
+(* ------------------------------------------------------------------------------------------ *)
+(** * A. is_injectable_by = bit subset (65 536 cases by computation, bound in the statement) *)
+
+Definition range256 : list N := map N.of_nat (seq 0 256).
+Definition bits8 : list N := [0; 1; 2; 3; 4; 5; 6; 7].
+Definition subsetb (r f : N) : bool :=
+  forallb (fun i => implb (N.testbit r i) (N.testbit f i)) bits8.
+
+Lemma in_range256 n : n < 256 -> In n range256.
+Proof.
+  intros Hn. unfold range256. rewrite <- (N2Nat.id n). apply in_map. apply in_seq. lia.
+Qed.
+
+Lemma inj_table :
+  forallb (fun r => forallb (fun f => Bool.eqb (is_injectable_by r f) (subsetb r f)) range256)
+          range256 = true.
+Proof. vm_compute. reflexivity. Qed.
+
+Lemma inj_subsetb r f : r < 256 -> f < 256 -> is_injectable_by r f = subsetb r f.
+Proof.
+  intros Hr Hf. pose proof inj_table as T. rewrite forallb_forall in T.
+  specialize (T r (in_range256 r Hr)). rewrite forallb_forall in T.
+  specialize (T f (in_range256 f Hf)). apply Bool.eqb_prop in T. exact T.
+Qed.
+
+Lemma testbit_high r i : r < 256 -> 8 <= i -> N.testbit r i = false.
+Proof.
+  intros Hr Hi. rewrite <- (N.mod_small r (2 ^ 8)) by (change (2 ^ 8) with 256; exact Hr).
+  apply N.mod_pow2_bits_high. exact Hi.
+Qed.
+
+Lemma in_bits8 i : i < 8 -> In i bits8.
+Proof.
+  intros Hi. unfold bits8.
+  assert (H : i = 0 \/ i = 1 \/ i = 2 \/ i = 3 \/ i = 4 \/ i = 5 \/ i = 6 \/ i = 7) by lia.
+  simpl. intuition.
+Qed.
+
+Lemma subsetb_spec r f : r < 256 -> (subsetb r f = true <-> bit_subset r f).
+Proof.
+  intros Hr. unfold subsetb, bit_subset. rewrite forallb_forall. split.
+  - intros H i Hi. destruct (N.lt_ge_cases i 8) as [Hlt | Hge].
+    + specialize (H i (in_bits8 i Hlt)). rewrite Hi in H. exact H.
+    + rewrite (testbit_high r i Hr Hge) in Hi. discriminate.
+  - intros H i _. destruct (N.testbit r i) eqn:E; [ | reflexivity ].
+    rewrite (H i E). reflexivity.
+Qed.
+
+Lemma injectable_iff_subset r f :
+  r < 256 -> f < 256 -> (is_injectable_by r f = true <-> bit_subset r f).
+Proof.
+  intros Hr Hf. rewrite (inj_subsetb r f Hr Hf). apply subsetb_spec. exact Hr.
+Qed.
+
+(* 0 requires nothing; 255 grants everything *)
+Lemma injectable_no_requirement f : f < 256 -> is_injectable_by 0 f = true.
+Proof. intros Hf. apply injectable_iff_subset; [ lia | exact Hf | ]. intros i Hi. rewrite N.bits_0 in Hi. discriminate. Qed.
+
+Example injectable_ex : is_injectable_by 5 7 = true /\ is_injectable_by 5 6 = false.
+Proof. split; reflexivity. Qed.
+
+(* ------------------------------------------------------------------------------------------ *)
+(** * B. stringify_arg *)
+
+(* what write_string_complex emits for one byte *)
+Definition enc_byte (ch : N) : str :=
+  let escape := esc_of ch in
+  if 0 <? escape
+  then [c18_ESC_PREFIX; escape] ++ (if escape =? c18_ESC_HEX_TRIGGER then fmt_04x ch else [])
+  else if escape =? c18_ESC_HEX_TRIGGER then ch :: fmt_04x ch   (* unreachable: the trigger is > 0 *)
+  else [ch].
+Definition enc_bytes (s : str) : str := flat_map enc_byte s.
+
+Lemma trigger_pos : 0 <? c18_ESC_HEX_TRIGGER = true.
+Proof. reflexivity. Qed.
+
+Lemma enc_bytes_cons c r : enc_bytes (c :: r) = enc_byte c ++ enc_bytes r.
+Proof. reflexivity. Qed.
+
+Lemma not_pos_not_trigger e : 0 <? e = false -> e =? c18_ESC_HEX_TRIGGER = false.
+Proof.
+  intros H. apply N.ltb_ge in H. apply N.eqb_neq. pose proof trigger_pos as T.
+  apply N.ltb_lt in T. lia.
+Qed.
+
+Lemma enc_byte_pos ch : 0 <? esc_of ch = true ->
+  enc_byte ch = [c18_ESC_PREFIX; esc_of ch] ++
+                (if esc_of ch =? c18_ESC_HEX_TRIGGER then fmt_04x ch else []).
+Proof. intros H. unfold enc_byte. rewrite H. reflexivity. Qed.
+
+Lemma enc_byte_zero ch : 0 <? esc_of ch = false -> enc_byte ch = [ch].
+Proof. intros H. unfold enc_byte. rewrite H, (not_pos_not_trigger _ H). reflexivity. Qed.
+
+Lemma slice_snoc (p1 p2 rest : str) (ch : N) :
+  slice (p1 ++ p2 ++ ch :: rest) (length p1) (S (length (p1 ++ p2))) = p2 ++ [ch].
+Proof.
+  unfold slice. rewrite drop_app_length. rewrite app_length.
+  replace (S (length p1 + length p2) - length p1)%nat with (length (p2 ++ [ch])) by (rewrite app_length; cbn [length]; lia).
+  change (p2 ++ ch :: rest) with (p2 ++ [ch] ++ rest). rewrite app_assoc. apply take_app_length.
+Qed.
+
+Lemma slice_mid (p1 p2 rest : str) :
+  slice (p1 ++ p2 ++ rest) (length p1) (length (p1 ++ p2)) = p2.
+Proof.
+  unfold slice. rewrite drop_app_length. rewrite app_length.
+  replace (length p1 + length p2 - length p1)%nat with (length p2) by lia. apply take_app_length.
+Qed.
+
+(* loop invariant: [p2] = the pending bytes s[start..index], none of which needs escaping *)
+Lemma wsc_loop_spec : forall (rest p1 p2 out : str),
+  forallb (fun c => negb (0 <? esc_of c)) p2 = true ->
+  let s := p1 ++ p2 ++ rest in
+  let '(o, st) := wsc_loop s rest (length (p1 ++ p2)) (length p1) out in
+  o ++ drop st s = out ++ p2 ++ enc_bytes rest.
+Proof.
+  induction rest as [ | ch rest IH ]; intros p1 p2 out Hp2; cbn zeta.
+  - cbn [wsc_loop enc_bytes flat_map]. rewrite !app_nil_r. rewrite drop_app_length. reflexivity.
+  - cbn [wsc_loop]. destruct (0 <? esc_of ch) eqn:Epos.
+    + (* escaped byte: flush the pending slice *)
+      rewrite slice_mid.
+      set (out1 := out ++ p2 ++ [c18_ESC_PREFIX; esc_of ch]).
+      set (out2 := if esc_of ch =? c18_ESC_HEX_TRIGGER then out1 ++ fmt_04x ch else out1).
+      specialize (IH (p1 ++ p2 ++ [ch]) [] out2 eq_refl). cbn zeta in IH.
+      rewrite app_nil_r in IH.
+      replace ((p1 ++ p2 ++ [ch]) ++ [] ++ rest) with (p1 ++ p2 ++ ch :: rest) in IH
+        by (cbn [app]; rewrite <- !app_assoc; reflexivity).
+      replace (length (p1 ++ p2 ++ [ch])) with (S (length (p1 ++ p2))) in IH
+        by (rewrite !app_length; cbn [length]; lia).
+      destruct (wsc_loop (p1 ++ p2 ++ ch :: rest) rest (S (length (p1 ++ p2))) (S (length (p1 ++ p2))) out2) as [o st].
+      rewrite IH. cbn [app]. unfold out2, out1. rewrite enc_bytes_cons, (enc_byte_pos ch Epos).
+      destruct (esc_of ch =? c18_ESC_HEX_TRIGGER); rewrite <- ?app_assoc; reflexivity.
+    + (* plain byte: stays pending *)
+      rewrite (not_pos_not_trigger _ Epos).
+      specialize (IH p1 (p2 ++ [ch]) out). cbn zeta in IH.
+      replace (p1 ++ (p2 ++ [ch]) ++ rest) with (p1 ++ p2 ++ ch :: rest) in IH
+        by (rewrite <- !app_assoc; reflexivity).
+      replace (length (p1 ++ p2 ++ [ch])) with (S (length (p1 ++ p2))) in IH
+        by (rewrite !app_length; cbn [length]; lia).
+      assert (Hp : forallb (fun c => negb (0 <? esc_of c)) (p2 ++ [ch]) = true).
+      { rewrite forallb_app, Hp2. cbn [forallb]. rewrite Epos. reflexivity. }
+      specialize (IH Hp).
+      destruct (wsc_loop (p1 ++ p2 ++ ch :: rest) rest (S (length (p1 ++ p2))) (length p1) out) as [o st].
+      rewrite IH. rewrite enc_bytes_cons, (enc_byte_zero ch Epos).
+      rewrite <- !app_assoc. reflexivity.
+Qed.
+
+Lemma enc_bytes_plain p : forallb (fun c => negb (0 <? esc_of c)) p = true -> enc_bytes p = p.
+Proof.
+  induction p as [ | c p IH ]; intros H; [ reflexivity | ].
+  cbn [forallb] in H. apply andb_prop in H as [Hc Hp]. rewrite enc_bytes_cons, (IH Hp).
+  apply Bool.negb_true_iff in Hc. rewrite (enc_byte_zero c Hc). reflexivity.
+Qed.
+
+Lemma enc_bytes_app a b : enc_bytes (a ++ b) = enc_bytes a ++ enc_bytes b.
+Proof. unfold enc_bytes. apply flat_map_app. Qed.
+
+Lemma write_string_complex_spec out p rest :
+  forallb (fun c => negb (0 <? esc_of c)) p = true ->
+  write_string_complex out (p ++ rest) (length p) = out ++ enc_bytes (p ++ rest).
+Proof.
+  intros Hp. unfold write_string_complex. rewrite take_app_length, drop_app_length.
+  pose proof (wsc_loop_spec rest p [] (out ++ p) eq_refl) as H. cbn zeta in H.
+  rewrite app_nil_r in H. cbn [app] in H.
+  destruct (wsc_loop (p ++ rest) rest (length p) (length p) (out ++ p)) as [o st].
+  rewrite H. rewrite enc_bytes_app, (enc_bytes_plain p Hp). rewrite <- !app_assoc. reflexivity.
+Qed.
+
+Lemma first_escaped_spec : forall s k,
+  match first_escaped s k with
+  | Some i => exists p rest, s = p ++ rest /\ i = (k + length p)%nat /\
+                             forallb (fun c => negb (0 <? esc_of c)) p = true
+  | None => forallb (fun c => negb (0 <? esc_of c)) s = true
+  end.
+Proof.
+  induction s as [ | c s IH ]; intros k; cbn [first_escaped]; [ reflexivity | ].
+  destruct (0 <? esc_of c) eqn:E.
+  - exists [], (c :: s). repeat split. simpl. lia.
+  - specialize (IH (S k)). destruct (first_escaped s (S k)) as [ i | ].
+    + destruct IH as (p & rest & Hs & Hi & Hp). exists (c :: p), rest. repeat split.
+      * rewrite Hs. reflexivity.
+      * simpl. lia.
+      * cbn [forallb]. rewrite E, Hp. reflexivity.
+    + cbn [forallb]. rewrite E, IH. reflexivity.
+Qed.
+
+(* stringify_arg is the per-byte encoding, between quotes when QUOTED *)
+Lemma stringify_arg_spec q a :
+  stringify_arg q a = (if q then [DQUOTE] else []) ++ enc_bytes a ++ (if q then [DQUOTE] else []).
+Proof.
+  unfold stringify_arg. pose proof (first_escaped_spec a O) as H.
+  destruct (first_escaped a O) as [ i | ].
+  - destruct H as (p & rest & Hs & Hi & Hp). subst a. simpl in Hi. subst i.
+    rewrite (write_string_complex_spec _ p rest Hp).
+    destruct q; rewrite <- ?app_assoc, ?app_nil_r; reflexivity.
+  - rewrite (enc_bytes_plain a H). destruct q; rewrite <- ?app_assoc, ?app_nil_r; reflexivity.
+Qed.
+
+(* ---- the L0 recogniser reads the encoding of every byte back (256 cases by computation) ---- *)
+
+Definition dec_check (c : N) : bool :=
+  match enc_byte c with
+  | [x] => (x =? c) && negb (x =? 34) && negb (x =? 92) && negb (x <? 32)
+  | [b; e] => (b =? 92) && match simple_escape e with Some v => v =? c | None => false end
+  | [b; e; h1; h2; h3; h4] =>
+      (b =? 92) && (e =? 117) &&
+      match simple_escape e with Some _ => false | None => true end &&
+      match hex4 h1 h2 h3 h4 with
+      | Some v => (v =? c) && match utf8_of_unit v with Some [u] => u =? c | _ => false end
+      | None => false
+      end
+  | _ => false
+  end.
+
+Lemma dec_table : forallb dec_check range256 = true.
+Proof. vm_compute. reflexivity. Qed.
+
+Lemma escaped_length : length c18_ESCAPED = 256%nat.
+Proof. reflexivity. Qed.
+
+Lemma esc_of_high c : 256 <= c -> esc_of c = 0.
+Proof. intros H. unfold esc_of. apply nth_overflow. rewrite escaped_length. lia. Qed.
+
+Lemma push_push u v o : push u (push v o) = push (u ++ v) o.
+Proof. destruct o as [ [d r] | ]; cbn [push]; [ rewrite app_assoc | ]; reflexivity. Qed.
+
+Lemma js_body_plain x rest :
+  x =? 34 = false -> x =? 92 = false -> x <? 32 = false ->
+  js_body (x :: rest) = push [x] (js_body rest).
+Proof. intros H1 H2 H3. cbn [js_body]. rewrite H1, H2, H3. reflexivity. Qed.
+
+Lemma js_body_enc_byte c rest : js_body (enc_byte c ++ rest) = push [c] (js_body rest).
+Proof.
+  destruct (N.lt_ge_cases c 256) as [Hlt | Hge].
+  - pose proof dec_table as T. rewrite forallb_forall in T. specialize (T c (in_range256 c Hlt)).
+    unfold dec_check in T.
+    destruct (enc_byte c) as [ | x [ | e [ | h1 [ | h2 [ | h3 [ | h4 [ | ? ? ] ] ] ] ] ] ];
+      try discriminate T.
+    + apply andb_prop in T as [T T4]. apply andb_prop in T as [T T3]. apply andb_prop in T as [T1 T2].
+      apply N.eqb_eq in T1. subst x. apply Bool.negb_true_iff in T2, T3, T4.
+      cbn [app]. apply js_body_plain; assumption.
+    + apply andb_prop in T as [T1 T2]. apply N.eqb_eq in T1. subst x.
+      destruct (simple_escape e) as [ v | ] eqn:Ee; [ | discriminate T2 ].
+      apply N.eqb_eq in T2. subst v. cbn [app js_body].
+      change (92 =? 34) with false. change (92 =? 92) with true. cbn iota. rewrite Ee. reflexivity.
+    + apply andb_prop in T as [T T4]. apply andb_prop in T as [T T3]. apply andb_prop in T as [T1 T2].
+      apply N.eqb_eq in T1. subst x.
+      destruct (simple_escape e) as [ v | ] eqn:Ee; [ discriminate T3 | ].
+      destruct (hex4 h1 h2 h3 h4) as [ v | ] eqn:Eh; [ | discriminate T4 ].
+      apply andb_prop in T4 as [T4 T5]. apply N.eqb_eq in T4. subst v.
+      destruct (utf8_of_unit c) as [ [ | u [ | ? ? ] ] | ] eqn:Eu; try discriminate T5.
+      apply N.eqb_eq in T5. subst u. cbn [app js_body].
+      change (92 =? 34) with false. change (92 =? 92) with true. cbn iota.
+      rewrite Ee, T2, Eh, Eu. reflexivity.
+  - assert (E0 : 0 <? esc_of c = false) by (rewrite (esc_of_high c Hge); reflexivity).
+    rewrite (enc_byte_zero c E0). cbn [app]. apply js_body_plain; lia.
+Qed.
+
+Lemma js_body_enc_bytes : forall a rest, js_body (enc_bytes a ++ rest) = push a (js_body rest).
+Proof.
+  induction a as [ | c a IH ]; intros rest.
+  - cbn [enc_bytes flat_map app]. destruct (js_body rest) as [ [d r] | ]; reflexivity.
+  - rewrite enc_bytes_cons, <- app_assoc, js_body_enc_byte, IH, push_push. reflexivity.
+Qed.
+
+(* the central theorem: the quoted form is a literal whose value is the argument, and the literal
+   ends exactly where the emitted text ends, whatever follows *)
+Lemma stringify_faithful_ctx a rest :
+  js_string_literal_parse (stringify_arg true a ++ rest) = Some (a, rest).
+Proof.
+  rewrite stringify_arg_spec. cbn [app js_string_literal_parse DQUOTE].
+  change (34 =? 34) with true. cbn iota. rewrite <- app_assoc, js_body_enc_bytes.
+  cbn [app js_body]. change (34 =? 34) with true. cbn iota. cbn [push]. rewrite app_nil_r. reflexivity.
+Qed.
+
+Lemma stringify_faithful a : js_string_literal_parse (stringify_arg true a) = Some (a, []).
+Proof. rewrite <- (app_nil_r (stringify_arg true a)). apply stringify_faithful_ctx. Qed.
+
+(* the unquoted form, placed anywhere inside a double-quoted literal, contributes exactly the
+   argument and leaves the recogniser inside the literal *)
+Lemma stringify_unquoted_inside a rest :
+  js_body (stringify_arg false a ++ rest) = push a (js_body rest).
+Proof. rewrite stringify_arg_spec. cbn [app]. rewrite app_nil_r. apply js_body_enc_bytes. Qed.
+
+Definition no_raw (c : N) : bool := negb (c =? 34) && negb (c <? 32).
+
+Lemma no_raw_table : forallb (fun c => forallb no_raw (enc_byte c)) range256 = true.
+Proof. vm_compute. reflexivity. Qed.
+
+Lemma stringify_unquoted_no_raw a : forallb no_raw (stringify_arg false a) = true.
+Proof.
+  rewrite stringify_arg_spec. cbn [app]. rewrite app_nil_r.
+  induction a as [ | c a IH ]; [ reflexivity | ].
+  rewrite enc_bytes_cons, forallb_app, IH, Bool.andb_true_r.
+  destruct (N.lt_ge_cases c 256) as [Hlt | Hge].
+  - pose proof no_raw_table as T. rewrite forallb_forall in T. exact (T c (in_range256 c Hlt)).
+  - assert (E0 : 0 <? esc_of c = false) by (rewrite (esc_of_high c Hge); reflexivity).
+    rewrite (enc_byte_zero c E0). cbn [forallb]. unfold no_raw. rewrite Bool.andb_true_r.
+    apply andb_true_intro. split; apply Bool.negb_true_iff; lia.
+Qed.
+
+(* every backslash of the unquoted form starts one of the escapes: no lone backslash can swallow
+   the closing quote of the surrounding literal *)
+Definition escape_wf (s : str) : bool :=
+  match js_body (s ++ [34]) with Some (_, []) => true | _ => false end.
+Lemma stringify_unquoted_wf a : escape_wf (stringify_arg false a) = true.
+Proof.
+  unfold escape_wf. rewrite stringify_unquoted_inside. cbn [js_body].
+  change (34 =? 34) with true. cbn iota. cbn [push]. reflexivity.
+Qed.
+
+(* ---- the argument list of an invocation ---- *)
+
+(* L0: lit {", " lit} ")" *)
+Fixpoint parse_lits (fuel : nat) (s : str) : option (list str) :=
+  match fuel with
+  | O => None
+  | S f =>
+      match js_string_literal_parse s with
+      | Some (v, r) =>
+          match r with
+          | [c] => if c =? 41 then Some [v] else None
+          | c :: d :: r' =>
+              if (c =? 44) && (d =? 32)
+              then match parse_lits f r' with Some l => Some (v :: l) | None => None end
+              else None
+          | [] => None
+          end
+      | None => None
+      end
+  end.
+
+Lemma invocation_args_faithful : forall args, args <> [] ->
+  parse_lits (length args) (join_with COMMA_SP (map (stringify_arg true) args) ++ [RPAR]) = Some args.
+Proof.
+  induction args as [ | a args IH ]; intros Hne; [ congruence | ].
+  destruct args as [ | b args ].
+  - cbn [map join_with length parse_lits]. rewrite stringify_faithful_ctx.
+    unfold RPAR. change (41 =? 41) with true. reflexivity.
+  - specialize (IH ltac:(discriminate)).
+    change (join_with COMMA_SP (map (stringify_arg true) (a :: b :: args)))
+      with (stringify_arg true a ++ COMMA_SP ++ join_with COMMA_SP (map (stringify_arg true) (b :: args))).
+    cbn [length]. cbn [parse_lits]. rewrite <- !app_assoc, stringify_faithful_ctx.
+    unfold COMMA_SP at 1. cbn [app]. change (44 =? 44) with true. change (32 =? 32) with true.
+    cbn [andb]. cbn [length] in IH. rewrite IH. reflexivity.
+Qed.
+
+Example stringify_ex :
+  stringify_arg true (bs "a""b\" ++ [10; 1; 226; 128; 168]) = bs """a\""b\\\n\u0001" ++ [226; 128; 168; 34].
+Proof. vm_compute. reflexivity. Qed.
